@@ -464,7 +464,11 @@ def run(ctx):
     found = False
     for sig in sorted(fails)[:8]:
         lst = fails[sig]
-        case, impl, exp, text = min(lst, key=lambda f: len(json.dumps(f[0], default=str)))
+        def weight(f):
+            fl_ = f[0].get('flags')
+            nset = sum(bool(x) for x in (fl_.values() if isinstance(fl_, dict) else fl_)) if fl_ is not None else 0
+            return (nset, len(json.dumps(f[0], default=str)))
+        case, impl, exp, text = min(lst, key=weight)
         found = True
         ctx.violation(sig, text, dict(kind=sig.split(':')[0], case=case, impl=impl, expected=exp, n_failing_cases=len(lst),
                                       theorem='C08_layout_documented_order / C08_singleton_unwrapped' if sig.startswith('layout') else
